@@ -172,6 +172,7 @@ fn main() {
         "ovs" => vharness::ovs::run(seed, n, thorough, &corpus, &dir),
         "saslx" => vharness::saslx::run(seed, n, thorough, &corpus, &dir),
         "hreuse" => vharness::hreuse::run(seed, n, thorough, &corpus, &dir),
+        "msg" => vharness::msg::run(seed, n, thorough, &corpus, &dir),
         other => { eprintln!("unknown sub-harness {other}"); std::process::exit(2); }
     }
 }
